@@ -20,6 +20,21 @@ pub mod sync {
     }
   }
 
+  impl<T: std::fmt::Debug> std::fmt::Debug for OnceCell<T> {
+    fn fmt(&self, f: &mut std::fmt::Formatter) -> std::fmt::Result {
+      match self.get() {
+        Some(v) => f.debug_tuple("OnceCell").field(v).finish(),
+        None => f.write_str("OnceCell(Uninit)"),
+      }
+    }
+  }
+
+  impl<T> From<T> for OnceCell<T> {
+    fn from(value: T) -> Self {
+      Self::with_value(value)
+    }
+  }
+
   impl<T> OnceCell<T> {
     pub fn new() -> OnceCell<T> {
       OnceCell(Imp::new())
@@ -40,6 +55,45 @@ pub mod sync {
 
     pub unsafe fn get_unchecked(&self) -> &T {
       self.0.get_unchecked()
+    }
+
+    /// Sets the contents of this cell to `value` (once_cell's `set`: `Err(value)` if full).
+    pub fn set(&self, value: T) -> Result<(), T> {
+      match self.try_insert(value) {
+        Ok(_) => Ok(()),
+        Err((_, value)) => Err(value),
+      }
+    }
+
+    /// Like `set`, but also returns a reference to the final cell value.
+    pub fn try_insert(&self, value: T) -> Result<&T, (&T, T)> {
+      let mut value = Some(value);
+      let res = self.get_or_init(|| unsafe { value.take().unwrap_unchecked() });
+      match value {
+        None => Ok(res),
+        Some(value) => Err((res, value)),
+      }
+    }
+
+    pub fn get_mut(&mut self) -> Option<&mut T> {
+      self.0.get_mut()
+    }
+
+    pub fn take(&mut self) -> Option<T> {
+      std::mem::take(self).into_inner()
+    }
+
+    pub fn into_inner(self) -> Option<T> {
+      self.0.into_inner()
+    }
+
+    /// Blocks until the cell is initialised by another thread.
+    pub fn wait(&self) -> &T {
+      if !self.0.is_initialized() {
+        self.0.wait()
+      }
+      debug_assert!(self.0.is_initialized());
+      unsafe { self.get_unchecked() }
     }
 
     pub fn get_or_init<F>(&self, f: F) -> &T
